@@ -53,6 +53,8 @@ Definition strMatch (s p : bytes) (oinit : option Z) : res (list lval) :=
 
 (* strGmatch + the values strGmatchIter yields, call after call *)
 Definition strGmatch (s p : bytes) : res (list (list lval)) :=
+  (* a leading '^' is escaped: in gmatch it is an ordinary character *)
+  let p := if (0 <? len p) && (bget p 0 =? 94) then 37 :: p else p in
   of_fres (goFind p s 0 (-1)) (fun mds =>
     Ok (map (fun md => if len md =? 2 then [VStr (slice s (capture md 0) (capture md 1))]
                        else caps_list s md) mds)).
